@@ -28,7 +28,46 @@ type fakeS3 struct {
 	objects  map[string][]byte // "bucket\x00key"
 	calls    []string          // "PUT bucket key" / "GET bucket key"
 	failNext error
+	// failBody: the next GET succeeds but its body fails after that many bytes
+	failBody int // -1 = off
+	gets     int
 }
+
+// chunkReader hands out the object in small pieces (an HTTP body does not arrive in one Read)
+// and can fail midway.
+type chunkReader struct {
+	b      []byte
+	chunk  int
+	failAt int // -1 = never
+	read   int
+}
+
+func (c *chunkReader) Read(p []byte) (int, error) {
+	if c.failAt >= 0 && c.read >= c.failAt {
+		return 0, errors.New("injected S3 body failure")
+	}
+	if len(c.b) == 0 {
+		return 0, io.EOF
+	}
+	n := c.chunk
+	if n > len(c.b) {
+		n = len(c.b)
+	}
+	if n > len(p) {
+		n = len(p)
+	}
+	if c.failAt >= 0 && c.read+n > c.failAt {
+		n = c.failAt - c.read
+		if n == 0 {
+			return 0, errors.New("injected S3 body failure")
+		}
+	}
+	copy(p, c.b[:n])
+	c.b = c.b[n:]
+	c.read += n
+	return n, nil
+}
+func (c *chunkReader) Close() error { return nil }
 
 func (f *fakeS3) take() error {
 	e := f.failNext
@@ -51,7 +90,11 @@ func (f *fakeS3) GetObjectWithContext(ctx aws.Context, in *s3.GetObjectInput, _ 
 	if !ok {
 		return nil, errors.New("NoSuchKey")
 	}
-	return &s3.GetObjectOutput{Body: io.NopCloser(bytes.NewReader(b))}, nil
+	f.gets++
+	fb := f.failBody
+	f.failBody = -1
+	cl := int64(len(b))
+	return &s3.GetObjectOutput{Body: &chunkReader{b: b, chunk: []int{1, 3, 7, 512, 1 << 20}[f.gets%5], failAt: fb}, ContentLength: &cl}, nil
 }
 
 func (f *fakeS3) PutObjectWithContext(ctx aws.Context, in *s3.PutObjectInput, _ ...request.Option) (*s3.PutObjectOutput, error) {
@@ -109,7 +152,7 @@ func newBackendExec() *backendExec {
 	// a base path that is a regular file, not a directory
 	os.WriteFile(filepath.Join(dir, "notadir"), []byte("x"), 0644)
 	e.backends["filebad"] = mfile.NewPersistForPath(filepath.Join(dir, "notadir"))
-	e.s3f = &fakeS3{objects: map[string][]byte{}}
+	e.s3f = &fakeS3{objects: map[string][]byte{}, failBody: -1}
 	p := ms3.NewPersist(e.s3f, "http://endpoint", s3Bucket, s3Prefix)
 	e.backends["s3"] = &p
 	for k := range e.backends {
@@ -191,11 +234,33 @@ func (e *backendExec) Exec(line string) (obs, viol string) {
 		}
 		e.written[t[1]][t[2]] = b
 		return "ok", viol
-	case "bload", "bloadfail":
+	case "bload", "bloadfail", "bloadbody":
 		be := e.backends[t[1]]
 		if t[0] == "bloadfail" {
 			e.s3f.failNext = errors.New("injected S3 failure")
 			e.failed = true
+		}
+		if t[0] == "bloadbody" {
+			// the GET succeeds, the body fails after a few bytes (a connection reset midway): unless
+			// the object is shorter than that, Load must return an error, never a prefix
+			want := e.written[t[1]][t[2]]
+			cut, _ := strconv.Atoi(t[3])
+			if len(want) == 0 {
+				cut = 0
+			} else {
+				cut = cut % len(want)
+			}
+			e.s3f.failBody = cut
+			e.failed = true
+			b, err := be.Load(ctx, t[2])
+			e.s3f.failBody = -1
+			if _, ok := e.written[t[1]][t[2]]; !ok {
+				return "err", ""
+			}
+			if err == nil {
+				return "ok", fmt.Sprintf("the S3 body failed after %d of %d bytes, Load returned %d bytes and no error", cut, len(want), len(b))
+			}
+			return "err", ""
 		}
 		ncalls := len(e.s3f.calls)
 		b, err := be.Load(ctx, t[2])
@@ -248,7 +313,7 @@ func (e *backendExec) ModelLine(line string) string {
 			return "kverr"
 		}
 		return "kvstore " + t[1] + " " + t[2] + " " + t[3]
-	case "bstorefail", "bloadfail":
+	case "bstorefail", "bloadfail", "bloadbody":
 		return "kverr"
 	case "bload":
 		return "kvload " + t[1] + " " + t[2]
@@ -301,7 +366,11 @@ func genBackendCase(r *rand.Rand) Case {
 		case 5:
 			ops = append(ops, fmt.Sprintf("bstorefail s3 %s %s", n, content[n]))
 		case 6:
-			ops = append(ops, fmt.Sprintf("bloadfail s3 %s", n))
+			if r.Intn(2) == 0 {
+				ops = append(ops, fmt.Sprintf("bloadbody s3 %s %d", n, r.Intn(1000)))
+			} else {
+				ops = append(ops, fmt.Sprintf("bloadfail s3 %s", n))
+			}
 		case 7:
 			ops = append(ops, fmt.Sprintf("bstore filebad %s %s", n, content[n]))
 		default:
@@ -312,7 +381,7 @@ func genBackendCase(r *rand.Rand) Case {
 }
 
 func famBackends(f *FamCtx) {
-	f.Report.Rule = "random sequences of Store / Load (sequential, and 2-7 concurrent Stores of the same name and bytes) on the in-memory store, the file store in a fresh directory (and one whose base path is a regular file), and the S3 store over a recording fake S3Interface with injected Put/Get failures; names from the 43-character node-name alphabet (also starting with - or _), payloads empty / binary / up to 128 KiB (1 MiB in the thorough tier); every answer compared with the Lean key-value contract model and with what was written; the S3 bucket and key of every call checked; non-trivial = every case (30-70 operations over 3 backends)"
+	f.Report.Rule = "random sequences of Store / Load (sequential, and 2-7 concurrent Stores of the same name and bytes) on the in-memory store, the file store in a fresh directory (and one whose base path is a regular file), and the S3 store over a recording fake S3Interface with injected Put/Get failures, bodies that arrive in pieces of 1 / 3 / 7 / 512 bytes and bodies that fail midway; names from the 43-character node-name alphabet (also starting with - or _), payloads empty / binary / up to 128 KiB (1 MiB in the thorough tier); every answer compared with the Lean key-value contract model and with what was written; the S3 bucket and key of every call checked; non-trivial = every case (30-70 operations over 3 backends)"
 	var execs []*backendExec
 	rn := Runner{Mk: func(Cfg) Executor { e := newBackendExec(); execs = append(execs, e); return e }}
 	f.Gen = func() Case { return genBackendCase(f.Rand) }
